@@ -148,6 +148,8 @@ def classify(tr, line, clause):
             and last.get("txn") is False):
         return "F10:records-after-final-soa-in-same-message:committed-then-FormError"
     via = str(tr.get("via")) + ("/" + tr["umode"] if tr.get("umode") else "")
+    if tr.get("leave", "propagate") != "propagate":
+        via += "~" + tr["leave"]
     return "%s:%s:%s:%s:%s:%s:%s:%s" % (clause, tr.get("req"), "udp" if tr.get("udp") else "tcp", tr.get("kind"), tr.get("fault"),
                                         tr.get("zclass"), ("rel" if tr.get("rel") else "abs") + "/" + via, exc)
 
@@ -181,8 +183,11 @@ def jobs_for(scripts, offset, per_script):
             # query paths over TCP: the connection ends with a clean EOF on the message boundary, after one octet of
             # the next length prefix, or in the middle of the next message (only seen if the transfer is not done by then)
             tail = ("none", "len", "body", "none")[(i // NC + cidx) % 4] if via in ("query", "aquery") and not s["udp"] else "none"
-            jobs.append((s, zc, rel, via, "s%d.%s.%s.%s%s%s" % (i, zc, "rel" if rel else "abs", via, "/" + umode if umode else "",
-                                                                "" if tail == "none" else "+" + tail), tail, umode))
+            # direct / wire paths: how the caller leaves the `with Inbound` block (see drivers.c13_xfr.replay)
+            leave = ("propagate", "caught", "clean")[(i // NC + cidx) % 3] if via in ("direct", "wire") else "propagate"
+            jobs.append((s, zc, rel, via, "s%d.%s.%s.%s%s%s%s" % (i, zc, "rel" if rel else "abs", via, "/" + umode if umode else "",
+                                                                  "" if tail == "none" else "+" + tail,
+                                                                  "" if leave == "propagate" else "~" + leave), tail, umode, leave))
     return jobs
 
 
@@ -223,7 +228,7 @@ def replay_and_judge(ctx, jobs, parallel=True):
                           tr.get("req"), "udp" if tr.get("udp") else "tcp", tr.get("kind"), tr.get("fault"), tr.get("zclass"),
                           tr.get("rel"), tr.get("via"), json.dumps([m["rrs"] for m in tr.get("msgs", [])])[:400], line, json.dumps(e)[:300]),
                       {"script": job[0] if job else None, "zclass": tr.get("zclass"), "rel": tr.get("rel"), "via": tr.get("via"),
-                       "tail": tr.get("tail", "none"), "umode": tr.get("umode", ""), "line": line, "trace": tr if len(ctx.violations) < 200 else {"tid": tr.get("tid")}})
+                       "tail": tr.get("tail", "none"), "umode": tr.get("umode", ""), "leave": tr.get("leave", "propagate"), "line": line, "trace": tr if len(ctx.violations) < 200 else {"tid": tr.get("tid")}})
 
 
 def run(ctx):
@@ -239,7 +244,7 @@ def run(ctx):
     if ctx.replay_case:
         case = ctx.replay_case["case"]
         replay_and_judge(ctx, [(case["script"], case["zclass"], case["rel"], case["via"], "replay", case.get("tail", "none"),
-                                case.get("umode", ""))],
+                                case.get("umode", ""), case.get("leave", "propagate"))],
                          parallel=False)
         return
     # ---------------------------------------------------------------- 1. the specification itself
